@@ -37,6 +37,7 @@ type IntegProfile struct {
 	CancelVia     string // "runner" | "scheduler"
 	CancelAfter   bool   // fire remaining Cancels after everything returned
 	LogYield      bool   // log lines emitted inside Cancel are park points
+	WMidpass      int    // percent of steps that arm a park in the middle of the next scheduling pass
 	Barrier       bool   // C04 at INTEG level: no process completes until every eligible stage has a command in flight
 	Checks        map[string]bool
 }
@@ -98,6 +99,7 @@ type integEngine struct {
 	cancelGIDs  sync.Map // goroutines that are executing Cancel: their log lines are park points
 	cli         bool
 	logSeq      int32
+	midArm      int32 // >0: suspend a scheduling pass at its n-th visit of a stage
 	nstages     int
 	runGID      []runRec
 }
@@ -254,6 +256,15 @@ func (e *integEngine) installHooks() {
 	}
 	executor.VerifInterpOptions = []interp.RunnerOption{interp.ExecHandler(e.pl.Handler)}
 	scheduler.VerifYield = func(kind string, subj interface{}) {
+		if kind == "sched-visit" {
+			// inactive unless the controller armed a mid-pass park (top-level pipelines only)
+			if atomic.LoadInt32(&e.midArm) > 0 && e.topLevelStage(subj.(*scheduler.Stage).Name) {
+				if atomic.AddInt32(&e.midArm, -1) == 0 {
+					c.Yield("sched-visit", "pass", nil)
+				}
+			}
+			return
+		}
 		if kind == "stage-start" {
 			gid := curGID()
 			e.pl.ident.Store(gid, subj.(*scheduler.Stage).Name)
@@ -597,7 +608,7 @@ func (e *integEngine) eligible() []*Park {
 			if e.allDriversReturned() {
 				out = append(out, p)
 			}
-		case "fault-cancel":
+		case "fault-cancel", "sched-visit":
 			// handled separately
 		default:
 			out = append(out, p)
@@ -695,6 +706,25 @@ func (e *integEngine) observe() {
 			stable := 0
 			for i := 0; stable < need && i < 400; i++ {
 				c.Advance(simPause)
+				if vp := c.ParkedOf("sched-visit"); len(vp) > 0 {
+					// the pass is suspended between two visits: one goroutine that is ready to go
+					// (a launched stage, a process about to complete) runs now, then the pass goes on
+					var ready []*Park
+					for _, q := range e.eligible() {
+						if q.Kind != "driver" && q.Kind != "finish" && q.Kind != "sched-visit" {
+							ready = append(ready, q)
+						}
+					}
+					if len(ready) > 0 {
+						c.Count("midpass_interleavings")
+						e.releasePark(ready[c.Ch.Choose(len(ready), "midpass-who")])
+						c.Quiesce()
+					}
+					for _, q := range c.ParkedOf("sched-visit") {
+						c.Release(q, Action{Kind: "go"})
+					}
+					c.Quiesce()
+				}
 				if s2 := e.signature(); s2 != sig {
 					sig, stable = s2, 0
 				} else {
@@ -962,6 +992,15 @@ func (e *integEngine) barrier() bool {
 	}
 }
 
+func (e *integEngine) topLevelStage(name string) bool {
+	for _, g := range e.w.AllGraphs() {
+		if g.Stage(name) != nil {
+			return true
+		}
+	}
+	return false
+}
+
 func (e *integEngine) pipelineStarted(name string) bool {
 	for _, d := range e.drivers {
 		if d.Spec.Kind == "pipeline" && d.Spec.Target == name && d.Released && !d.Returned {
@@ -1054,6 +1093,10 @@ func (e *integEngine) loop() {
 			w = append(w, 0)
 		} else {
 			w = append(w, prof.WAdvance)
+		}
+		if prof.WMidpass > 0 && e.schedActive() && orderedLoops > 0 && c.Ch.Bool(prof.WMidpass, 100, "arm-midpass") {
+			atomic.StoreInt32(&e.midArm, int32(1+c.Ch.Choose(6*(e.nstages+1), "midpass-visit")))
+			c.Count("midpass_armed")
 		}
 		if len(faults) > 0 && (prof.CancelAt < 0 || e.faultsFired > 0) {
 			w = append(w, prof.WFault)
